@@ -629,6 +629,28 @@ impl<'a> Gen<'a> {
         let x = pick_name(self);
         let y = pick_name(self);
         let (ex, ey) = (esc(&x), esc(&y));
+        // a long alternation (9-14 branches) mixing plain and tree-terminated branches, behind a
+        // literal prefix, inside a repetition, or bare
+        if self.rng.chance(2, 100) {
+            let k = self.rng.range(9, 14);
+            let mut branches: Vec<String> = (0..k)
+                .map(|i| {
+                    let n = if self.rng.chance(1, 2) { pick_name(self) } else { format!("n{}", i) };
+                    if self.rng.chance(7, 10) { format!("{}/**", esc(&n)) } else { esc(&n) }
+                })
+                .collect();
+            if self.rng.chance(1, 2) {
+                // the plain branches first
+                branches.sort_by_key(|b| b.ends_with("/**"));
+            }
+            let alt = format!("{{{}}}", branches.join(","));
+            return match self.rng.below(4) {
+                0 => format!("{}/{}", ex, alt),
+                1 => format!("<{}:1>", alt),
+                2 => format!("*/{}", alt),
+                _ => alt,
+            };
+        }
         let w = self.rng.weighted(&[10, 10, 8, 8, 6, 5, 4, 3, 3, 5, 4, 4, 4, 3, 14, 3, 3, 4, 3, 3, 3, 2, 2, 3]);
         match w {
             0 => format!("{}/**", ex),
